@@ -558,7 +558,9 @@ where
                             match &*attr_name {
                                 "class" if !is_component => has_class_binding = true,
                                 "style" if !is_component => has_style_binding = true,
-                                "key" | "on" | "ref" => {}
+                                "key" | "ref" => {}
+                                // merged through `_transformOn` below
+                                "on" | "nativeOn" if self.options.transform_on => {}
                                 _ => {
                                     dynamic_props.insert(attr_name.clone());
                                 }
@@ -569,7 +571,8 @@ where
                             && (attr_name == "on" || attr_name == "nativeOn")
                         {
                             // the transformed listeners take part in the props like a spread
-                            // written at this position
+                            // written at this position, so the prop keys are not statically known
+                            has_dynamic_keys = true;
                             let transformed = Expr::Call(CallExpr {
                                 span: DUMMY_SP,
                                 callee: Callee::Expr(Box::new(Expr::Ident(
